@@ -50,4 +50,3 @@ func MapKeys(x interface{}) []string {
 	walk(x)
 	return out
 }
-
